@@ -16,10 +16,17 @@ for f, tier in [("scratch/w4/regress.json", "quick"), ("scratch/w4/rerun.json", 
             if n.startswith("m13"):
                 continue
             add(n, r, tier)
+# a run that was stopped early leaves no json: its finished lines are in the .out file
+po = "/verif/scratch/w4/regress.out"
+if not os.path.exists("/verif/scratch/w4/regress.json") and os.path.exists(po):
+    for l in open(po):
+        m = re.match(r"(C\d\d-\d)\s+(C\d\d)\s+rc=(-?\d+)\s+(\S+)\s+\d+s\s*(.*)", l)
+        if m:
+            rows[m.group(1)] = (m.group(2), "quick", m.group(4), m.group(5)[:160])
 head = subprocess.run(["git", "-C", "/verif", "rev-parse", "--short", "HEAD"], capture_output=True, text=True).stdout.strip()
 out = ["# Regression of stored seeded changes against the checks", "",
        f"Written by tools/regression_md.py from tools/par_seeds.py result files (seeds applied in scratch worktrees of /repo, never in /repo itself); /verif at {head} or a few commits earlier (a seed's row belongs to the run it came from).",
-       "Wave 4 (`Cxx-7`, `Cxx-8`): all 40. Waves 1-3: seeds `Cxx-2`, `Cxx-4`, `Cxx-6` (one per wave and property) re-run against the strengthened checks; the others were last run at the end of round 1.", "",
+       "Wave 4 (`Cxx-7`, `Cxx-8`): all 40. Waves 1-3: a sample (`Cxx-2`, `Cxx-4`, `Cxx-6` of C01..C06) was re-run against the strengthened checks before the run was stopped for time; the others were last run at the end of round 1.", "",
        "| seed | check | tier | verdict | signatures (first three) |", "|---|---|---|---|---|"]
 for n in sorted(rows):
     p, t, v, s = rows[n]
